@@ -174,3 +174,14 @@ Proof. rewrite nth_error_app2 by lia. rewrite Nat.sub_diag. reflexivity. Qed.
 
 Lemma nth_error_lt {A} (l : list A) j y : nth_error l j = Some y -> j < length l.
 Proof. intros H. apply nth_error_Some. congruence. Qed.
+
+Lemma upd_nth_split {A} (l : list A) i x :
+  nth_error l i = Some x ->
+  exists rest, Permutation l (x :: rest) /\ forall x', Permutation (upd_nth i x' l) (x' :: rest).
+Proof.
+  revert i. induction l as [|a l IH]; intros [|i] H; simpl in H; try discriminate.
+  - inversion H; subst. exists l. split; [reflexivity | intros; reflexivity].
+  - destruct (IH i H) as [rest [P1 P2]]. exists (a :: rest). split.
+    + rewrite P1. apply perm_swap.
+    + intros x'. simpl. rewrite P2. apply perm_swap.
+Qed.
